@@ -12,6 +12,9 @@ import XzVerif.Lemmas.Memusage
 import XzVerif.Lemmas.MemIndex
 import XzVerif.Lemmas.Memlimit
 import XzVerif.Lemmas.XzAdjust
+import XzVerif.Lemmas.MemlimitRun
+import XzVerif.Lemmas.MemlimitPeakRun
+import XzVerif.Lemmas.MemMt
 import XzVerif.Gen.C09
 
 namespace XzVerif.C09
@@ -139,6 +142,47 @@ theorem encoder_alloc_le_estimate_statement_false : ¬ encoder_alloc_le_estimate
   have h1 := h thisBuild gen_build_ok [.lzma2 { dict := 4096 }] 1452555 encoder_estimate_counterexample.1
   rw [encoder_estimate_counterexample.2] at h1
   omega
+
+
+/-! ## Estimates are upper bounds: the threaded encoder -/
+
+/-- `lzma_stream_encoder_mt`: for EVERY thread count, EVERY `options->block_size` — including 0, for which `get_options`
+    substitutes `lzma_mt_block_size(filters)`; the input buffers, the output buffers
+    (`lzma_block_buffer_bound64(block size)`) and the estimate all use that effective value — and every chain whose
+    LZMA2 dictionary is at least 60 KiB (cf. `encoder_estimate_counterexample`), everything that can be allocated at
+    the same time (`streamEncoderMtAllocs`: coder, `threads` array, Index, three kinds of option copies, per worker the
+    input buffer + Block encoder + filter chain, 2·threads output buffers, Index encoder, Record groups) plus
+    lzma_internal is at most `lzma_stream_encoder_mt_memusage()` plus the Index Record groups AFTER THE FIRST — the Index
+    grows by one 8 KiB group per 512 Blocks and is not part of the estimate. -/
+theorem mt_encoder_alloc_le_estimate (b : Build) (hb : b.Ok) (threads blockSizeOpt : Nat) (fs : List Filter)
+    (nblocks est : Nat) (al : List Nat) (hest : streamEncoderMtMemusage b threads blockSizeOpt fs = some est)
+    (hal : streamEncoderMtAllocs b threads blockSizeOpt fs nblocks = some al)
+    (hd : ∀ f ∈ fs, lzma2DictBigEnough f) :
+    b.szInternal + al.sum ≤ est + ((nblocks + INDEX_GROUP_SIZE - 1) / INDEX_GROUP_SIZE - 1)
+      * (b.szIndexGroup + INDEX_GROUP_SIZE * b.szIndexRecord) :=
+  mtEnc_alloc_le b hb threads blockSizeOpt fs nblocks est al hest hal hd
+
+/-- Up to 512 Blocks the estimate alone is an upper bound. -/
+theorem mt_encoder_alloc_le_estimate_512 (b : Build) (hb : b.Ok) (threads blockSizeOpt : Nat) (fs : List Filter)
+    (nblocks est : Nat) (al : List Nat) (hn : nblocks ≤ INDEX_GROUP_SIZE)
+    (hest : streamEncoderMtMemusage b threads blockSizeOpt fs = some est)
+    (hal : streamEncoderMtAllocs b threads blockSizeOpt fs nblocks = some al)
+    (hd : ∀ f ∈ fs, lzma2DictBigEnough f) : b.szInternal + al.sum ≤ est := by
+  have h := mtEnc_alloc_le b hb threads blockSizeOpt fs nblocks est al hest hal hd
+  have hg : (nblocks + INDEX_GROUP_SIZE - 1) / INDEX_GROUP_SIZE - 1 = 0 := by simp only [INDEX_GROUP_SIZE] at hn ⊢; omega
+  rw [hg] at h
+  omega
+
+/-- Non-vacuity on this build: 3 threads, automatic block size (3 MiB for a 1 MiB dictionary), 2 Blocks done:
+    41 requests, 55 274 813 bytes (+ 104 of lzma_internal) ≤ estimate 55 395 789. With `threads × options->block_size`
+    (= 0) in place of threads × the effective block size the estimate would be 9 437 184 bytes lower — far below the
+    allocations. -/
+theorem mt_encoder_estimate_example :
+    streamEncoderMtMemusage thisBuild 3 0 [.lzma2 { dict := 1048576, mode := 1, nice := 32, mf := 4 }] = some 55395789
+    ∧ ((streamEncoderMtAllocs thisBuild 3 0 [.lzma2 { dict := 1048576, mode := 1, nice := 32, mf := 4 }] 2).map
+        (fun l => (l.length, l.sum))) = some (41, 55274813)
+    ∧ 55274813 > 55395789 - 3 * 3145728 := by
+  decide +kernel
 
 /-! ## Estimates are upper bounds: lzma_index -/
 
@@ -288,6 +332,122 @@ theorem memlimit_restartable_index (fuel : Nat) (r r' : Run) (k : Nat)
   have := retryLoop_transparent Core.SimU indexAttempt indexAttempt_restartable fuel r k r' h h6 h11 cu ku cu' hsim hu
   exact ⟨this.1, this.2.1.1, this.2.2⟩
 
+
+/-! ## Whole-run restartability -/
+
+/-- What a finished run delivers to the application: the final return code, the Blocks (for .lzma/.lz: the stream)
+    that were handed to a payload decoder — the decoded output is a function of these, the payload decoders being
+    C03's subject —, the number of input bytes consumed, and the LZMA_NO_CHECK / LZMA_UNSUPPORTED_CHECK /
+    LZMA_GET_CHECK notifications. -/
+def runResult (x : Nat × Run) : Nat × List (List UInt8) × Nat × List Nat :=
+  (x.1, x.2.decoded, x.2.consumed, chks x.2.out)
+
+/-- The decoders also end in the same allocation state. -/
+def sameCoders (x y : Nat × Run) : Prop :=
+  x.2.core.chain = y.2.core.chain ∧ x.2.core.heap.live = y.2.core.heap.live ∧ x.2.core.blockAlloc = y.2.core.blockAlloc
+
+theorem agree_result {s1 s2 : List SetTok} {x y : Nat × Run} (h : Agree Core.Sim s1 s2 x y) (hn : NeededOnly s1)
+    (hy : y.1 ≠ 6) : (x.1 = 6 ∧ x.2.sets = []) ∨ (runResult x = runResult y ∧ sameCoders x y) := by
+  rcases h with g | g | ⟨hc, hsim, hcons, hdec, hchk⟩
+  · exact Or.inl (gaveUp_needed s1 _ _ hn g)
+  · exact absurd g.1 hy
+  · right
+    refine ⟨?_, hsim.2.1, hsim.1, hsim.2.2⟩
+    simp only [runResult, hc, hcons, hdec, hchk]
+
+/-- WHOLE-RUN RESTARTABILITY, single-threaded .xz decoder (`lzma_stream_decoder` + `lzma_code` until it stops), for
+    EVERY input file (any number of Streams and Blocks with any filter chains, valid or not), every `flags`, every
+    initial limit `l1` and every number `n` of times the application is prepared to answer LZMA_MEMLIMIT_ERROR with
+    `lzma_memlimit_set(strm, lzma_memusage(strm))`:
+    either the script ran out (the run ends with LZMA_MEMLIMIT_ERROR and no token is left), or the run ends with exactly
+    the result — return code, Blocks decoded (hence output), bytes consumed, check notifications — and the same coders
+    allocated as ANY run of the same file that does not end with LZMA_MEMLIMIT_ERROR, in particular the run whose
+    limit `l2` is never reached. -/
+theorem memlimit_run_restartable (b : Build) (flags l1 n l2 : Nat) (s2 : List SetTok) (inp : List UInt8)
+    (hu : (xzRun b flags l2 s2 inp).1 ≠ 6) :
+    ((xzRun b flags l1 (List.replicate n .needed) inp).1 = 6 ∧ (xzRun b flags l1 (List.replicate n .needed) inp).2.sets = [])
+    ∨ (runResult (xzRun b flags l1 (List.replicate n .needed) inp) = runResult (xzRun b flags l2 s2 inp)
+        ∧ sameCoders (xzRun b flags l1 (List.replicate n .needed) inp) (xzRun b flags l2 s2 inp)) :=
+  agree_result (xzRun_agree b flags l1 l2 _ s2 inp) (neededOnly_replicate n) hu
+
+/-- The same for ARBITRARY scripts on both sides (values below / above / equal to the needed amount, rejected calls in
+    between): two runs of one file agree unless one of them GAVE UP, i.e. ended with LZMA_MEMLIMIT_ERROR after a
+    `lzma_memlimit_set` dialogue in which no value was accepted. -/
+theorem memlimit_run_restartable_scripts (b : Build) (flags l1 l2 : Nat) (s1 s2 : List SetTok) (inp : List UInt8) :
+    GaveUp s1 (xzRun b flags l1 s1 inp).1 (xzRun b flags l1 s1 inp).2
+    ∨ GaveUp s2 (xzRun b flags l2 s2 inp).1 (xzRun b flags l2 s2 inp).2
+    ∨ (runResult (xzRun b flags l1 s1 inp) = runResult (xzRun b flags l2 s2 inp)
+        ∧ sameCoders (xzRun b flags l1 s1 inp) (xzRun b flags l2 s2 inp)) := by
+  rcases xzRun_agree b flags l1 l2 s1 s2 inp with g | g | ⟨hc, hsim, hcons, hdec, hchk⟩
+  · exact Or.inl g
+  · exact Or.inr (Or.inl g)
+  · exact Or.inr (Or.inr ⟨by simp only [runResult, hc, hcons, hdec, hchk], hsim.2.1, hsim.1, hsim.2.2⟩)
+
+/-- … `lzma_alone_decoder` … -/
+theorem memlimit_run_restartable_alone (b : Build) (l1 n l2 : Nat) (s2 : List SetTok) (inp : List UInt8)
+    (hu : (aloneRun b l2 s2 inp).1 ≠ 6) :
+    ((aloneRun b l1 (List.replicate n .needed) inp).1 = 6 ∧ (aloneRun b l1 (List.replicate n .needed) inp).2.sets = [])
+    ∨ (runResult (aloneRun b l1 (List.replicate n .needed) inp) = runResult (aloneRun b l2 s2 inp)
+        ∧ sameCoders (aloneRun b l1 (List.replicate n .needed) inp) (aloneRun b l2 s2 inp)) :=
+  agree_result (aloneRun_agree b l1 l2 _ s2 inp) (neededOnly_replicate n) hu
+
+/-- … `lzma_lzip_decoder` … -/
+theorem memlimit_run_restartable_lzip (b : Build) (flags l1 n l2 : Nat) (s2 : List SetTok) (inp : List UInt8)
+    (hu : (lzipRun b flags l2 s2 inp).1 ≠ 6) :
+    ((lzipRun b flags l1 (List.replicate n .needed) inp).1 = 6 ∧ (lzipRun b flags l1 (List.replicate n .needed) inp).2.sets = [])
+    ∨ (runResult (lzipRun b flags l1 (List.replicate n .needed) inp) = runResult (lzipRun b flags l2 s2 inp)
+        ∧ sameCoders (lzipRun b flags l1 (List.replicate n .needed) inp) (lzipRun b flags l2 s2 inp)) :=
+  agree_result (lzipRun_agree b flags l1 l2 _ s2 inp) (neededOnly_replicate n) hu
+
+/-- … `lzma_auto_decoder` (whatever format the first byte selects) … -/
+theorem memlimit_run_restartable_auto (b : Build) (flags l1 n l2 : Nat) (s2 : List SetTok) (inp : List UInt8)
+    (hu : (autoRun b flags l2 s2 inp).1 ≠ 6) :
+    ((autoRun b flags l1 (List.replicate n .needed) inp).1 = 6 ∧ (autoRun b flags l1 (List.replicate n .needed) inp).2.sets = [])
+    ∨ (runResult (autoRun b flags l1 (List.replicate n .needed) inp) = runResult (autoRun b flags l2 s2 inp)
+        ∧ sameCoders (autoRun b flags l1 (List.replicate n .needed) inp) (autoRun b flags l2 s2 inp)) :=
+  agree_result (autoRun_agree b flags l1 l2 _ s2 inp) (neededOnly_replicate n) hu
+
+/-- … and `lzma_index_decoder`. -/
+theorem memlimit_run_restartable_index (b : Build) (l1 n l2 : Nat) (s2 : List SetTok) (inp : List UInt8)
+    (hu : (indexRun b l2 s2 inp).1 ≠ 6) :
+    ((indexRun b l1 (List.replicate n .needed) inp).1 = 6 ∧ (indexRun b l1 (List.replicate n .needed) inp).2.sets = [])
+    ∨ (runResult (indexRun b l1 (List.replicate n .needed) inp) = runResult (indexRun b l2 s2 inp)
+        ∧ sameCoders (indexRun b l1 (List.replicate n .needed) inp) (indexRun b l2 s2 inp)) :=
+  agree_result (indexRun_agree b l1 l2 _ s2 inp) (neededOnly_replicate n) hu
+
+/-- AT NO POINT of a run of the single-threaded .xz decoder — any file, any initial limit, any script of limit changes —
+    are more bytes live than max(LZMA_MEMUSAGE_BASE, the limit in force): the invariant `CoreInv` (peak of the counting
+    allocator ≤ max(LZMA_MEMUSAGE_BASE, memlimit), old chain + new header options within the limit, chain = the nodes
+    of the last accepted Block) holds after every step, the limit is only ever raised, and the coders of the previous
+    Block are freed before bigger ones are allocated (`chainScript_spec`). Stated for the final state, whose `peak` is
+    the maximum over the whole run. -/
+theorem memlimit_run_peak (b : Build) (hb : b.Ok) (flags limit : Nat) (sets : List SetTok) (inp : List UInt8) :
+    (xzRun b flags limit sets inp).2.core.heap.peak ≤ max MEMUSAGE_BASE (xzRun b flags limit sets inp).2.core.memlimit := by
+  have := (xzRun_peak b hb flags limit sets inp).peak
+  omega
+
+/-- The same for `.lzma`, `.lz`, for `lzma_auto_decoder` (its own struct, which LZMA_MEMUSAGE_BASE need not cover, is the
+    fixed allowance) … -/
+theorem memlimit_run_peak_others (b : Build) (hb : b.Ok) (flags limit : Nat) (sets : List SetTok) (inp : List UInt8) :
+    (aloneRun b limit sets inp).2.core.heap.peak ≤ max MEMUSAGE_BASE (aloneRun b limit sets inp).2.core.memlimit
+    ∧ (lzipRun b flags limit sets inp).2.core.heap.peak ≤ max MEMUSAGE_BASE (lzipRun b flags limit sets inp).2.core.memlimit
+    ∧ (autoRun b flags limit sets inp).2.core.heap.peak
+        ≤ max MEMUSAGE_BASE (autoRun b flags limit sets inp).2.core.memlimit + b.szAutoDecoder := by
+  have h1 := aloneRun_peak b hb limit sets inp
+  have h2 := lzipRun_peak b hb flags limit sets inp
+  have h3 := autoRun_peak b hb flags limit sets inp
+  unfold PeakOk at h1 h2 h3
+  exact ⟨by omega, by omega, h3⟩
+
+/-- … and for the Index decoder (allowance: lzma_internal + the Index decoder struct; `lzma_index_memusage` of the
+    announced Record count must not be UINT64_MAX, which a limit below UINT64_MAX guarantees). -/
+theorem memlimit_run_peak_index (b : Build) (limit : Nat) (sets : List SetTok) (inp : List UInt8)
+    (hlim : (indexRun b limit sets inp).2.core.memlimit < UINT64_MAX) :
+    (indexRun b limit sets inp).2.core.heap.peak
+      ≤ max (b.szInternal + b.szIndexDecoder + b.szIndex + b.szIndexStream)
+            ((indexRun b limit sets inp).2.core.memlimit + b.szInternal + b.szIndexDecoder) :=
+  indexRun_peak b limit sets inp hlim
+
 /-- The .lzma / .lz decoders allocate the LZMA1 decoder only when the recorded estimate is within the limit. -/
 theorem coder_init_within_limit (b : Build) (o : LzmaOpts) (c c' : Core) (k : Nat)
     (h : coderAttempt b o c = (.done k, c')) : c.memusage ≤ c.memlimit := by
@@ -378,6 +538,41 @@ theorem mt_threaded_only_within_threading_limit (b : Build) (c : MtCore) (m chec
   · split at h
     · simp at h
     · simpa using h
+
+
+/-- ALLOCATION-LEVEL bound of the threaded decoder for the part that does not depend on thread schedules: a Block that
+    is decoded single-threaded ("direct mode": no sizes in its header, or chain + buffers above memlimit_threading).
+    SEQ_BLOCK_INIT lets it through only if its chain estimate `m` is at most `stop` = memlimit_stop
+    (`mt_threading_limit`); then SEQ_BLOCK_DIRECT_INIT, started from ANY state the threaded part may have left behind
+    (`cache` bytes of cached output buffers, `thr` bytes held by worker threads, an older direct-mode decoder),
+    ends with only the fixed structs and the new single-threaded decoder live — at most max(LZMA_MEMUSAGE_BASE, stop)
+    bytes —, and every allocation it makes happens with at most that much live: the cached output buffers
+    (`lzma_outq_clear_cache`) and the workers (`threads_end`) are released FIRST. -/
+theorem mt_direct_alloc_le_stop (b : Build) (hb : b.Ok) (mm : MtMem) (opt : Nat) (fs : List Filter) (m stop : Nat)
+    (hm : rawDecoderMemusage b fs = some m) (hstop : m ≤ stop) (hopt : opt ≤ 4 * b.optMax)
+    (hacc : MtAcc b (b.szInternal + b.szStreamDecoderMt + b.szIndexHash) opt mm)
+    (hroom : b.szInternal + b.szStreamDecoderMt + b.szIndexHash + b.szBlockDecoder + 4 * b.optMax + chainBytes mm.chain
+              ≤ max MEMUSAGE_BASE stop) :
+    (mtDirectInit b mm opt fs).2.heap.live ≤ max MEMUSAGE_BASE stop
+    ∧ (mtDirectInit b mm opt fs).2.heap.peak ≤ max mm.heap.peak (max MEMUSAGE_BASE stop)
+    ∧ (mtDirectInit b mm opt fs).2.cache = 0 ∧ (mtDirectInit b mm opt fs).2.thr = 0
+    ∧ MtAcc b (b.szInternal + b.szStreamDecoderMt + b.szIndexHash) 0 (mtDirectInit b mm opt fs).2
+    ∧ b.szInternal + b.szStreamDecoderMt + b.szIndexHash + b.szBlockDecoder + 4 * b.optMax
+        + chainBytes (mtDirectInit b mm opt fs).2.chain ≤ max MEMUSAGE_BASE stop := by
+  obtain ⟨h1, h2, h3, h4, h5, h6⟩ := mtDirectInit_le_stop b hb mm opt fs m stop hm hstop hopt hacc hroom
+  exact ⟨h4, h5, h2, h3, h1, h6⟩
+
+/-- The order matters: the same script WITHOUT its first call (`lzma_outq_clear_cache`) leaves the cached output
+    buffer allocated next to the 8 MiB single-threaded decoder — above a memlimit_stop that the Block fits. -/
+theorem mt_direct_needs_cache_clear :
+    let b := thisBuild
+    let fs : List Filter := [.lzma2 { dict := 8388608 }]
+    let base := b.szInternal + b.szStreamDecoderMt + b.szIndexHash
+    let mm : MtMem := { heap := { live := base + 1048640 + 112, peak := 0, reqs := [] }, cache := 1048640 }
+    rawDecoderMemusage b fs = some 8454808
+    ∧ (mm.heap.apply (mtDirectInitScript b mm 112 fs).2.1).live ≤ 8454808
+    ∧ (mm.heap.apply (mtDirectInitScript b mm 112 fs).2.1.tail).live > 8454808 + MEMUSAGE_BASE := by
+  decide +kernel
 
 /-- Full statement wanted by the property for the threaded decoder: after LZMA_MEMLIMIT_ERROR `lzma_memusage()` tells
     the needed amount. FALSE for the code as it is (known finding C09:mtdec-memusage-after-memlimit-error): the model,
@@ -495,6 +690,26 @@ example :
     let fs : List Filter := [.lzma2 { dict := 8388608 }]
     (blockInit thisBuild c 112 fs).1 = .memlimit
     ∧ (blockInit thisBuild { c with memlimit := 8454808 } 112 fs).1 = .done 0 := by decide +kernel
+
+/-- A 64-byte .xz file (one Block, LZMA2 with an 8 MiB dictionary declared, "hello world\n"). -/
+def helloXz : List UInt8 :=
+  [0xfd, 0x37, 0x7a, 0x58, 0x5a, 0x00, 0x00, 0x01, 0x69, 0x22, 0xde, 0x36, 0x02, 0xc0, 0x10, 0x0c, 0x21, 0x01, 0x16, 0x00,
+   0xbe, 0xbf, 0xe8, 0x28, 0x01, 0x00, 0x0b, 0x68, 0x65, 0x6c, 0x6c, 0x6f, 0x20, 0x77, 0x6f, 0x72, 0x6c, 0x64, 0x0a, 0x00,
+   0x2d, 0x3b, 0x08, 0xaf, 0x00, 0x01, 0x20, 0x0c, 0xa2, 0xdd, 0xb4, 0xbc, 0x90, 0x42, 0x99, 0x0d, 0x01, 0x00, 0x00, 0x00,
+   0x00, 0x01, 0x59, 0x5a]
+
+/-- Whole-run restartability is not vacuous: started with limit 1 and one "set the limit to lzma_memusage()" answer the
+    run ends with LZMA_STREAM_END, all 64 bytes consumed, the Block handed to the decoder, limit 8454808, peak below it
+    — the same result as the run with limit UINT64_MAX; without an answer it gives up with LZMA_MEMLIMIT_ERROR. -/
+example :
+    (xzRun thisBuild 0 1 [.needed] helloXz).1 = 1 ∧ (xzRun thisBuild 0 UINT64_MAX [] helloXz).1 = 1
+    ∧ runResult (xzRun thisBuild 0 1 [.needed] helloXz) = runResult (xzRun thisBuild 0 UINT64_MAX [] helloXz)
+    ∧ (xzRun thisBuild 0 1 [.needed] helloXz).2.consumed = 64
+    ∧ (xzRun thisBuild 0 1 [.needed] helloXz).2.decoded.length = 1
+    ∧ (xzRun thisBuild 0 1 [.needed] helloXz).2.core.memlimit = 8454808
+    ∧ (xzRun thisBuild 0 1 [.needed] helloXz).2.core.heap.peak ≤ 8454808
+    ∧ (xzRun thisBuild 0 1 [] helloXz).1 = 6 ∧ (xzRun thisBuild 0 1 [] helloXz).2.sets = [] := by
+  decide +kernel
 
 /-- xz -9 -T4 --memlimit-compress=100MiB: switch to one thread, then shrink the dictionary from 64 MiB to 8 MiB. -/
 example :
